@@ -24,12 +24,13 @@ RULE = ("cell = (decorator[, wrappers stacked on it], binding[, second binding],
         "all-positional, all-keyword, default omitted, with the keyword-only argument, mixed; bodies: plain return, generator "
         "yielding a ConstFuture, generator blocking on a DebugBatchItem; conventions: f(...), f.asynq(...).value(), yield "
         "f.asynq(...) from a task, async_call.asynq(f, ...).value(), async_call(f, ...), yield async_call.asynq(f, ...), "
-        "get_async_fn(f)(...), get_async_fn(f, wrap_if_none=True)(...), get_async_or_sync_fn(f)(...). Wrappers over sync_fn pairs: "
-        "deduplicate / aretry / alru_cache / acached_per_instance / make_async_decorator stacked on asynq(sync_fn=) and on "
-        "async_proxy(sync_fn=), on every binding the stack can be built for (both tiers). Access histories (both tiers): for every "
+        "get_async_fn(f)(...), get_async_fn(f, wrap_if_none=True)(...), get_async_or_sync_fn(f)(...). Wrappers over other bases: "
+        "deduplicate / aretry / alru_cache / acached_per_instance / make_async_decorator stacked on asynq(sync_fn=), "
+        "async_proxy(sync_fn=), async_proxy() and (make_async_decorator only) asynq(pure=True), on every binding the stack can be "
+        "built for, with every convention and the classifier-consistency oracle on the bound objects (both tiers). Access histories (both tiers): for every "
         "decorator, body and argument pattern ONE generated class hierarchy is accessed through every ordered pair of bindings of "
         "the same descriptor kind (method: instance, a second instance, class with explicit self, subclass instance, falsy "
-        "instance; classmethod: class, instance, subclass, subclass instance; staticmethod: class, instance, subclass, falsy "
+        "instance, two distinct instances that compare and hash equal; classmethod: class, instance, subclass, subclass instance; staticmethod: class, instance, subclass, falsy "
         "instance; function twice), including the same binding twice; the second access uses different argument values, each access "
         "is judged by the full oracle; quick uses the same convention for both accesses, thorough every convention pair and also "
         "the stacks over sync_fn pairs. Thorough adds failing bodies and all 25 two-wrapper stacks over asynq(). Every cell is executed "
@@ -76,10 +77,13 @@ CONVS = ["sync", "asynq_value", "yield", "acall_asynq", "acall_sync", "acall_yie
 # function-style wrappers are written for functions and instance methods (every m_* binding, including m_falsy)
 FUNCTION_STYLE = {"aretry": ("func", "m_"), "alru": ("func", "m_"), "acpi": ("m_",)}
 SYNC_BASES = ["asynq_sync", "proxy_sync"]
+# bases other than plain asynq() that the wrappers are stacked on (both tiers)
+STACK_BASES = ["asynq_sync", "proxy_sync", "pure", "proxy"]
 # bindings that only occur inside access histories (a second instance, subclass instance / subclass for class- and staticmethods)
 HISTORY_BINDINGS = {
     "func": ["func"],
-    "m": ["m_inst", "m_inst2", "m_cls", "m_sub", "m_falsy"],
+    # m_eqA / m_eqB: two DISTINCT instances of a subclass with value equality (a == b, hash(a) == hash(b))
+    "m": ["m_inst", "m_inst2", "m_cls", "m_sub", "m_falsy", "m_eqA", "m_eqB"],
     "cm": ["cm_cls", "cm_inst", "cm_sub", "cm_subinst"],
     "sm": ["sm_cls", "sm_inst", "sm_sub", "sm_falsy"],
 }
@@ -97,6 +101,9 @@ SKIPPED = {
     "deduplicate over asynq(sync_fn=<classmethod object>) on classmethod bindings": "the classmethod object given as sync_fn is "
         "only re-bound by AsyncAndSyncPairDecorator.__get__, which deduplicate's binder bypasses (synchronous call: TypeError "
         "'classmethod' object is not callable on the unchanged tree); outside the statement's quantifier",
+    "deduplicate, aretry, alru_cache, acached_per_instance over asynq(pure=True)": "these wrappers call inner.asynq(...), which a "
+        "pure async function does not have (AttributeError at decoration or call time); make_async_decorator leaves the call "
+        "to the user's wrapper_fn and is stacked on pure functions",
     "deduplicate over async_proxy(...)": "deduplicate() needs the wrapped function's task class and async_proxy has none "
         "(synchronous call: TypeError 'NoneType' object is not callable on the unchanged tree); outside the statement's quantifier",
 }
@@ -332,7 +339,10 @@ def apply_wrapper(w, inner):
     if w == "mad":
         @L.asynq(pure=True)
         def wrapper_fn(*args, **kwargs):
-            v = yield inner.asynq(*args, **kwargs)
+            if hasattr(inner, "asynq"):
+                v = yield inner.asynq(*args, **kwargs)
+            else:  # a pure async function: calling it gives the future
+                v = yield inner(*args, **kwargs)
             return ("W", v)
 
         return L.D.make_async_decorator(inner, wrapper_fn, "c09wrap")
@@ -381,7 +391,7 @@ class Access(object):
 
 class Hierarchy(object):
     """one generated class hierarchy (or bare function) carrying the decorated object"""
-    __slots__ = ("obj", "cls", "sub", "falsy", "inst", "inst2", "subinst", "finst", "names")
+    __slots__ = ("obj", "cls", "sub", "falsy", "inst", "inst2", "subinst", "finst", "eqcls", "eqa", "eqb", "names")
 
 
 def build(cell, log):
@@ -399,8 +409,15 @@ def build(cell, log):
     h.inst2 = h.cls()
     h.subinst = h.sub()
     h.finst = h.falsy()
+    # value equality: every instance of C09Eq equals every other one and hashes alike
+    h.eqcls = type("C09Eq", (h.cls,), {"__eq__": lambda self, other: type(other) is type(self),
+                                       "__ne__": lambda self, other: type(other) is not type(self),
+                                       "__hash__": lambda self: 9})
+    h.eqa = h.eqcls()
+    h.eqb = h.eqcls()
     h.names = [(h.cls, "the class"), (h.sub, "the subclass"), (h.inst, "the instance"), (h.inst2, "the second instance"),
-               (h.subinst, "the subclass instance"), (h.falsy, "the falsy class"), (h.finst, "the falsy instance")]
+               (h.subinst, "the subclass instance"), (h.falsy, "the falsy class"), (h.finst, "the falsy instance"),
+               (h.eqa, "equal-valued instance A"), (h.eqb, "equal-valued instance B")]
     return h
 
 
@@ -420,6 +437,10 @@ def access(h, binding):
         acc.f, acc.bound = h.inst.m, h.inst
     elif binding == "m_inst2":
         acc.f, acc.bound = h.inst2.m, h.inst2
+    elif binding == "m_eqA":
+        acc.f, acc.bound = h.eqa.m, h.eqa
+    elif binding == "m_eqB":
+        acc.f, acc.bound = h.eqb.m, h.eqb
     elif binding == "m_cls":
         acc.f, acc.bound, acc.pre = h.cls.m, h.inst, (h.inst,)
     elif binding == "m_sub":
@@ -460,6 +481,8 @@ def skip_reason(cell):
             return "deduplicate over asynq(sync_fn=<classmethod object>) on a classmethod binding"
     if "dedup" in st and base_of(cell) in ("proxy", "proxy_sync"):
         return "deduplicate over async_proxy"
+    if base_of(cell) == "pure" and st and st[0] != "mad":
+        return "deduplicate / function-style wrapper over asynq(pure=True)"
     if len(st) == 2 and st[0] == "mad" and st[1] == "dedup":
         return "deduplicate over make_async_decorator"
     if deco == "plain" and body != "plain":
@@ -767,8 +790,8 @@ def stacks(tier):
 
 
 def sync_stacks():
-    """one wrapper over a sync_fn pair (both tiers)"""
-    return [(base, w) for base in SYNC_BASES for w in WRAPPERS]
+    """one wrapper over a sync_fn pair, a pure async function or an async_proxy (both tiers)"""
+    return [(base, w) for base in STACK_BASES for w in WRAPPERS]
 
 
 def history_pairs():
@@ -861,7 +884,7 @@ def run(job, env):
         if cell.get("binding2"):
             key = "cells:access history"
         elif cell.get("base"):
-            key = "cells:wrapper over sync_fn pair"
+            key = "cells:wrapper over " + cell["base"]
         else:
             key = "cells:" + ("stack" if cell.get("stack") else cell["deco"])
         cnt[key] = cnt.get(key, 0) + 1
@@ -892,7 +915,7 @@ def finish(acc, tier):
         "stacks the library refuses to build (TypeError/AttributeError at decoration time; recorded, not judged)": rejected,
         "decorators": DECOS, "bindings": BINDINGS, "argument patterns": {k: repr(v) for k, v in ARGPATS.items()},
         "bodies": BODIES, "conventions": CONVS,
-        "wrappers over sync_fn pairs": ["%s over %s" % (w, base) for base, w in sync_stacks()],
+        "wrappers over sync_fn pairs / pure / async_proxy": ["%s over %s" % (w, base) for base, w in sync_stacks()],
         "access histories (ordered pairs of bindings on one class hierarchy)": ["%s then %s" % p for p in history_pairs()],
         "access histories: decorators": [g[0] if not g[1] else "%s over %s" % (g[2][0], g[1]) for g in history_groups(tier) if not g[3]],
         "access histories: conventions": "every (first, second) convention pair" if tier == "thorough" else "same convention for both accesses",
